@@ -354,6 +354,28 @@ def connect_cases():
         after = state.snapshot(g)
         if after != before:
             return "%r refused but the Gfa changed: %s" % (text, "; ".join(state.snap_diff(before, after))[:300])
+    # a placeholder that existed before the refused call (left by a removed edge) survives it; placeholders created for the refused line do not
+    g = gfapy.Gfa(vlevel=1)
+    for t in ["H\tVN:Z:2.0", "S\tA\t8\t*", "E\tex\tA+\tV+\t6\t8$\t0\t2\t*", "O\tgrp\tA+"]:
+        g.add_line(t)
+    g.rm(g.line("ex"))
+    before = state.snapshot(g)
+    try:
+        g.add_line("E\te9\tW+\tgrp+\t0\t2\t0\t2\t*")
+        return "edge onto a group accepted"
+    except gfapy.Error:
+        pass
+    if state.snapshot(g) != before:
+        return "refused edge changed a Gfa holding an older placeholder: %s" % "; ".join(state.snap_diff(before, state.snapshot(g)))[:300]
+    g = gfapy.Gfa(["S\ta\t*", "P\tp1\ta+\t*"], vlevel=1)
+    before = state.snapshot(g)
+    try:
+        g.add_line("P\tp2\tx+,y+,p1+\t*")
+        return "path over a path name accepted"
+    except gfapy.Error:
+        pass
+    if state.snapshot(g) != before:
+        return "refused path left placeholders: %s" % "; ".join(state.snap_diff(before, state.snapshot(g)))[:300]
     g = gfapy.Gfa(base, vlevel=1)
     l = gfapy.Line("E\te1\tA-\tB+\t0\t2\t0\t2\t*", version="gfa2")
     l.connect(g)
